@@ -60,8 +60,11 @@ class C10(Check):
         optional_mix = rng.random() < 0.35
         if optional_mix:
             kinds = ["TaskStartAt", "TaskEndBefore", "TaskPrecedence", "TasksStartSynced", "TasksDontOverlap", "ConstraintFromExpression"] + list(gen.LOGIC_KINDS)
+            if rng.random() < 0.5:
+                # "declared optional" is offered by every constraint class: any kind, left unapplied, must exclude nothing
+                kinds = rng.sample(gen.TASK_CONSTRAINT_KINDS + gen.RESOURCE_CONSTRAINT_KINDS + gen.OPTIONAL_RULE_KINDS, 4) + ["And", "Or"]
         return gen.profile(
-            n_tasks=(2, 4 if big else 3), p_optional=0.15, p_zero=0.1, p_variable=0.3, n_workers=(0, 2), p_select=0.2, p_assign=0.3,
+            n_tasks=(2, 4 if big else 3), p_optional=0.15, p_zero=0.1, p_variable=0.3, n_workers=(0, 2), p_select=0.2, p_assign=0.6 if optional_mix else 0.3,
             p_horizon=0.95, slack=(1, 5), constraints=kinds, n_constraints=(1, 3), p_optional_constraint=0.6 if optional_mix else 0.0,
             p_optional_operand=0.25 if rng.random() < 0.5 else 0.0,
             logic_depth=3 if big else 2,
@@ -157,8 +160,13 @@ class C10(Check):
                     continue
                 culprits = C05CHECK.culprits(plan, spec, pins)
                 logic_culprits = [k for k in culprits if k.split(".")[0] in LOGIC or k.split(".")[0] in ("ConstraintFromExpression", "ForceApplyNOptionalConstraints")]
+                optional_culprits = [k for k in culprits if k.startswith("Optional(")]
                 alone = violates_an_operand_alone(spec, rebuilt[0])
-                if logic_culprits:
+                if optional_culprits and not logic_culprits:
+                    # the reference counts an optional constraint as excluding nothing: the refusal goes away
+                    # when that constraint is deleted, so left unapplied it still constrained the schedule
+                    v.violate("C10", "optional_constraint_not_inert", optional_culprits, {"pins": pins}, ev["seq"], ev["client"])
+                elif logic_culprits:
                     rule = "operand_leaked" if alone else "formula_too_strong"
                     v.violate("C10", rule, logic_culprits, {"pins": pins}, ev["seq"], ev["client"])
                 else:
